@@ -6,7 +6,6 @@ Binding: G - every behaviour TLC enumerates (all command sequences up to a lengt
 longer ones) is replayed on a real SessionExecutor through ExecuteCommand with real binary COM_STMT_* payloads; the
 values an execution used are read off the statement text arriving at a fake backend.
 """
-import copy
 import json
 import random
 
@@ -58,10 +57,14 @@ CONSTANTS
   MaxBad = %(bad)d
   KeepOnFailure = FALSE
   GenLen = %(len)d
-INVARIANTS Emit
+INVARIANTS Emit TypeOK UsedMatchesHistory Isolated UnknownFails MalformedFails FailedLeavesUnset NoBoundBetweenCommands
 CHECK_DEADLOCK FALSE
 """
 
+# simulation only generates (the invariants are checked exhaustively by the mc runs; evaluating the history operators
+# on every candidate successor makes simulation several times slower)
+SIM_CFG = GEN_CFG.replace("INVARIANTS Emit TypeOK UsedMatchesHistory Isolated UnknownFails MalformedFails FailedLeavesUnset "
+                          "NoBoundBetweenCommands", "INVARIANTS Emit TypeOK UsedMatchesHistory")
 ALL_INVS = "TypeOK UsedMatchesHistory Isolated UnknownFails MalformedFails FailedLeavesUnset NoBoundBetweenCommands"
 HARNESS = [_stmt.FIX, "proxy/server/stmt_c16_test.go"]
 RUN = "^TestVerifStmtLifecycle$"
@@ -104,10 +107,34 @@ def run(ctx):
         replay(ctx, [rec["case"]["case"]], "replay file")
         return
 
-    # 1. exhaustive model check: the table algorithm satisfies the history properties
-    mcs = [dict(prep=2, np=2, len=4, bad=1)]
+    # 1. exhaustive model check: the table algorithm satisfies the history properties.  The first configuration also
+    #    emits every behaviour of its length bound (same run: the invariants hold on exactly what is replayed).
+    nontriv = set()
+    first_ok = [None]
+    cf = _stmt.CaseFile(ctx.path("c16-cases.ndjson"))
+    for k in _stmt.known_cases("C16"):
+        cf.add(k["case"])
+
+    def sink(v):
+        v["iseed"] = rng.randrange(1, 1 << 31)
+        cf.add(v)
+        if nontrivial(v):
+            nontriv.add(hash(json.dumps(v["cmds"], sort_keys=True)))
+        if first_ok[0] is None and any(e["c"] == "exec" and e["res"] == "ok" and e["used"][0]["k"] == "val" for e in v["cmds"]):
+            first_ok[0] = v
+
+    g = dict(prep=2, np=2, len=5 if thorough else 4, bad=1)
+    n0 = len(cf)
+    r = ctx.tlc("StmtLifecycle_gen", "sl_gen.cfg", extra_files={"sl_gen.cfg": GEN_CFG % g}, workers=4, coverage=True,
+                timeout=2400, case_sink=sink, keep_cases=False,
+                label="exhaustive check + all behaviours of %d commands %s" % (g["len"], g))
+    ctx.log("mc+gen", g, r.stats(), "behaviours:", len(cf) - n0, "%.1fs" % r.wall)
+    if r.zero_actions:
+        ctx.notes.append("vacuous actions in %s: %s" % (g, r.zero_actions))
+    ctx.sample({"np": g["np"], "cmds": cf.get(n0 + (len(cf) - n0) // 2)["cmds"]})
+    mcs = []
     if thorough:
-        mcs = [dict(prep=2, np=2, len=5, bad=1), dict(prep=3, np=1, len=5, bad=2), dict(prep=1, np=3, len=4, bad=1)]
+        mcs = [dict(prep=3, np=1, len=5, bad=2), dict(prep=1, np=3, len=4, bad=1)]
     for m in mcs:
         m = dict(m, keep="FALSE", invs=ALL_INVS)
         r = ctx.tlc("StmtLifecycle", "sl_mc.cfg", extra_files={"sl_mc.cfg": MC_CFG % m}, coverage=True, timeout=1500,
@@ -124,49 +151,20 @@ def run(ctx):
     if r.violated != "UsedMatchesHistory":
         raise vlib.Inconclusive("TLC does not refute the keep-on-failure variant: the property would be vacuous")
 
-    # 2. G: bounded-exhaustive behaviours, then simulation of longer ones
-    gens = [dict(prep=2, np=2, len=4, bad=1)]
-    sims = [dict(prep=3, np=2, len=10, bad=2, num=400), dict(prep=2, np=3, len=8, bad=1, num=200),
-            dict(prep=2, np=1, len=9, bad=2, num=200)]
+    # 2. seeded simulation of longer behaviours (more handles, 1-3 parameters)
+    sims = [dict(prep=3, np=3, len=9, bad=2, num=80)]
     if thorough:
-        gens = [dict(prep=2, np=2, len=5, bad=1)]
-        sims = [dict(prep=3, np=2, len=12, bad=2, num=6000), dict(prep=2, np=3, len=10, bad=1, num=3000),
-                dict(prep=2, np=1, len=10, bad=2, num=3000), dict(prep=3, np=2, len=16, bad=3, num=3000)]
-    nontriv = set()
-    first_ok = [None]
-
-    def collect(cf):
-        def sink(v):
-            v["iseed"] = rng.randrange(1, 1 << 31)
-            cf.add(v)
-            if nontrivial(v):
-                nontriv.add(hash(json.dumps(v["cmds"], sort_keys=True)))
-            if first_ok[0] is None and any(e["c"] == "exec" and e["res"] == "ok" and e["used"][0]["k"] == "val" for e in v["cmds"]):
-                first_ok[0] = v
-        return sink
-
-    cf = _stmt.CaseFile(ctx.path("c16-known.ndjson"))
-    for k in _stmt.known_cases("C16"):
-        cf.add(k["case"])
-    if len(cf):
-        replay(ctx, cf, "cases stored with known findings")
-    for g in gens:
-        cf = _stmt.CaseFile(ctx.path("c16-bfs.ndjson"))
-        r = ctx.tlc("StmtLifecycle_gen", "sl_gen.cfg", extra_files={"sl_gen.cfg": GEN_CFG % g}, workers=4,
-                    timeout=1500, case_sink=collect(cf), keep_cases=False,
-                    label="all behaviours of %d commands" % g["len"])
-        ctx.log("generated", len(cf), "behaviours of length", g["len"], "%.1fs" % r.wall)
-        ctx.sample({"np": g["np"], "cmds": cf.get(len(cf) // 2)["cmds"]})
-        replay(ctx, cf, "all of length %d" % g["len"])
+        sims = [dict(prep=3, np=2, len=12, bad=2, num=700), dict(prep=2, np=3, len=10, bad=1, num=300),
+                dict(prep=2, np=1, len=10, bad=2, num=400), dict(prep=3, np=2, len=16, bad=3, num=300)]
     for s in sims:
-        cf = _stmt.CaseFile(ctx.path("c16-sim.ndjson"))
-        r = ctx.tlc("StmtLifecycle_gen", "sl_gen.cfg", extra_files={"sl_gen.cfg": GEN_CFG % s}, workers=1, mode="sim",
+        n0 = len(cf)
+        r = ctx.tlc("StmtLifecycle_gen", "sl_gen.cfg", extra_files={"sl_gen.cfg": SIM_CFG % s}, workers=1, mode="sim",
                     sim="num=%d" % s["num"], depth=s["len"] + 1, timeout=240, seed=rng.randrange(1, 2 ** 31),
-                    case_sink=collect(cf), keep_cases=False, label="simulate length %d" % s["len"])
-        if not len(cf):
+                    case_sink=sink, keep_cases=False, label="simulate length %d %s" % (s["len"], s))
+        if len(cf) == n0:
             raise vlib.Inconclusive("simulation produced no behaviours")
-        ctx.sample({"np": s["np"], "cmds": cf.get(0)["cmds"]})
-        replay(ctx, cf, "simulated length %d np %d" % (s["len"], s["np"]))
+        ctx.log("simulated", len(cf) - n0, "behaviours", s, "%.1fs" % r.wall)
+        ctx.sample({"np": s["np"], "cmds": cf.get(n0)["cmds"]})
     ctx.cov["distinct_nontrivial"] = len(nontriv)
     ctx.cov["rule"] = ("behaviours = command sequences of one session enumerated by TLC (all of a bounded length, plus seeded "
                        "simulation); non-trivial = a successful execute on a statement that since its prepare saw long data, a "
@@ -174,17 +172,16 @@ def run(ctx):
     ctx.notes.append("transition cover: the state graph of the generation run is a tree (the history is part of the state); "
                      "replaying every enumerated behaviour covers every edge")
 
-    # 3. binding self-test: a corrupted expectation must be flagged by the harness
-    good = first_ok[0]
-    if good is None:
-        raise vlib.Inconclusive("no behaviour with a successful execute was generated")
-    bad = copy.deepcopy(good)
-    for e in bad["cmds"]:
-        if e["c"] == "exec" and e["res"] == "ok" and e["used"][0]["k"] == "val":
-            e["used"][0] = {"k": "null"}
-            break
-    res, summ, _ = ctx.harness(_stmt.SERVER_PKG, HARNESS, RUN, [bad])
-    caught = any("wrong values" in d["sig"] for r in res for d in r.get("devs", []))
+    # 3. binding self-test case: a corrupted expectation must be flagged by the harness (same harness run)
+    bad = {"np": 2, "iseed": 7, "selftest": True, "cmds": [
+        {"c": "prepare", "h": 1, "res": "ok"},
+        {"c": "exec", "h": 1, "pk": ["val", "val"], "mal": 0, "res": "ok",
+         "used": [{"k": "null"}, {"k": "val", "tag": [2, 2]}]}]}   # the specification says used[1] = <<2,1>>
+    cf.add(bad)
+
+    # 4. G: replay everything on the real SessionExecutor
+    res, summ = replay(ctx, cf, "all")
+    caught = any("wrong values" in d["sig"] for d in summ.get("selftest_devs", []))
     ctx.cov["binding_selftest"] = {"corrupted_expectation_detected": caught}
-    if not caught:
+    if not caught and not ctx.violations:
         raise vlib.Inconclusive("binding self-test failed: a corrupted expected value was accepted")
